@@ -158,7 +158,7 @@ def c12_groups(tier, tag='C12'):
     if tier == 'quick':
         dec = [(3, 7), (2, 10), (4, 8), (2, 2)]
         lem = [(3, 7), (2, 10), (4, 8), (16, 2), (32, 1), (1, 30), (2, 16), (5, 6)]
-        wrap = [(3, 7, 1), (2, 10, 1), (3, 7, 2)]
+        wrap = [(3, 7, 1), (2, 10, 1)]
     else:
         dec = [(l, b) for (l, b) in valid_layouts() if l <= 6] + [(8, 4), (16, 2)]
         lem = valid_layouts()
@@ -423,7 +423,10 @@ def c15_groups(tier):
     gs = gate_groups('C15', tier)                                   # every gate x every aliasing pattern
     gs += boot_groups('C15')
     gs += [g for g in c08_groups(tier, 'C15') if 'translate' in g.name or 'lweKeySwitch' in g.name]
-    gs += [g for g in c12_groups(tier, 'C15') if 'DecompH' in g.name and ('lemma' not in g.name)]
+    dz = [g for g in c12_groups(tier, 'C15') if 'DecompH' in g.name and ('lemma' not in g.name)]
+    if tier == 'quick':
+        dz = [g for g in dz if ('TLweDecompH' not in g.name and ('l=3.Bgbit=7' in g.name or 'l=2.Bgbit=10' in g.name)) or 'TLweDecompH.l=2.Bgbit=10.k=1' in g.name]
+    gs += dz
     gs += [g for g in tlwe_groups('C15', tier) if 'Extract' in g.name]
     gs.append(StaticGroup('C15.static.no_rng', rng_scan))
     return gs
@@ -433,10 +436,17 @@ def c16_groups(tier):
     gs = alloc_groups('C16', tier)
     gs += boot_groups('C16')
     gs += [g for g in c08_groups(tier, 'C16') if 'translate' in g.name]
-    gs += [g for g in c12_groups(tier, 'C16') if 'lemma' not in g.name]
+    dz = [g for g in c12_groups(tier, 'C16') if 'lemma' not in g.name]
+    if tier == 'quick':
+        dz = [g for g in dz if 'TLweDecompH' not in g.name or 'TLweDecompH.l=2.Bgbit=10.k=1' in g.name]
+    gs += dz
     gs += [g for g in lwe_groups('C16', tier) if not g.bounded]
-    gs += poly_mono_groups('C16') + [g for g in poly_cw_groups('C16') if '.p=' not in g.name or '.p=3' in g.name]
-    gs += [g for g in tlwe_groups('C16', 'quick') if '.p=' not in g.name or '.p=3' in g.name]
+    gs += (poly_mono_groups('C16')[:1] if tier == 'quick' else poly_mono_groups('C16'))
+    gs += [g for g in poly_cw_groups('C16') if '.p=' not in g.name or '.p=3' in g.name]
+    tz = [g for g in tlwe_groups('C16', 'quick') if '.p=' not in g.name or '.p=3' in g.name]
+    if tier == 'quick':
+        tz = [g for g in tz if 'tLweAddMulTo' not in g.name and 'tLweAddRTTo' not in g.name and 'tLweMulByXaiMinusOne.k=1.gi=1' not in g.name]
+    gs += tz
     gs += gate_groups('C16', tier, aliases=(0,))
     gs += c19_groups(tier, 'C16')
     for km, fn in [(0, 'torusPolynomialMultKaratsuba')]:
